@@ -226,7 +226,9 @@ class Gen:
                 t.is_async = True
                 t.options["cache"] = False
             # limits
-            if cfg.limit_names and ch.coin(cfg.p_limit, "limit?"):
+            # (async tasks hold their units while awaiting children: hold-and-wait by
+            # construction, so they get no limits in generated programs)
+            if cfg.limit_names and not t.is_async and ch.coin(cfg.p_limit, "limit?"):
                 names = [x for x in cfg.limit_names if ch.coin(0.6, "lim-name")] or [cfg.limit_names[0]]
                 if cfg.dict_limits and ch.coin(0.4, "dict-limits"):
                     t.options["limits"] = {x: 1 + ch.choice(2, "lim-count") for x in names}
@@ -260,8 +262,18 @@ class Gen:
             self.gen_body(t)
         prog.main_args = [gen_value(ch, kind) for (_, kind, _) in prog.tasks[0].params]
         if cfg.limit_names:
-            prog.limits = {x: 1 + ch.choice(2, "limit-cap") for x in cfg.limit_names
-                           if ch.coin(0.7, "limit-configured")}
+            demand: dict[str, int] = {}
+            for t in prog.tasks:
+                lim = t.options.get("limits")
+                if isinstance(lim, list):
+                    lim = {x: 1 for x in lim}
+                for x, c in (lim or {}).items():
+                    demand[x] = max(demand.get(x, 0), c)
+            for x in cfg.limit_names:
+                need = demand.get(x, 0)
+                if need > 1 or ch.coin(0.7, "limit-configured"):
+                    # feasible: capacity is at least the largest single demand
+                    prog.limits[x] = max(1, need) + ch.choice(2, "limit-cap")
         return prog
 
     # -- bodies ---------------------------------------------------------------
